@@ -3,7 +3,8 @@ import itertools
 from impl import trees, mk_leaf, mk_node
 
 LABELS = ["S", "VP", "NP", "PP", "AP", "CS", "AVP", "SBAR", "X", "NP-SBJ", "NP-SBJ-1", "VP=2", "CNP",
-          "S-12", "NP-SBJ-10", "VP=23", "NP-LOC=11-3"]      # indices of more than one digit
+          "S-12", "NP-SBJ-10", "VP=23", "NP-LOC=11-3",      # indices of more than one digit
+          "NP-1'", "NP-SBJ-1'", "VP'", "S=2'", "NP-SBJ=3-14'"]  # a head marker comes after the indices
 PLAIN_LABELS = ["S", "VP", "NP", "PP", "AP", "CS", "AVP", "SBAR", "X", "CNP", "VZ"]
 POS = ["NN", "VVFIN", "ART", "ADJA", "APPR", "ADV", "NE", "VAFIN", "KON", "PPER", "VVPP", "PRELS"]
 EDGES = ["HD", "NK", "SB", "OA", "MO", "--", "OC", "-", "CJ"]
@@ -42,6 +43,7 @@ class Cfg(object):
         self.root_label = "VROOT"
         self.wrap_all = False     # root has exactly one constituent child spanning everything
         self.large = True         # occasionally 13..45 tokens
+        self.pos = POS
         self.__dict__.update(kw)
 
 
@@ -65,7 +67,7 @@ def gen_tree(rng, cfg=None, n=None):
             pos = PUNCT_POS.get(w, "$(")
         else:
             w = rng.choice(cfg.words)
-            pos = rng.choice(POS)
+            pos = rng.choice(cfg.pos)
         lemma = morph = "--"
         edge = rng.choice(cfg.edges)
         if cfg.none_fields:
